@@ -307,10 +307,11 @@ func (r *AvPacket2RtmpRemuxer) FeedAvPacket(pkt base.AvPacket) {
 				r.hasAdts2Asc = true
 			}
 
-			length := len(pkt.Payload) - 5 // -7+2
-			if length < 7 {
+			if len(pkt.Payload) <= 7 {
+				// adts header only (or less), no raw aac data
 				return
 			}
+			length := len(pkt.Payload) - 5 // -7+2
 			payload := make([]byte, length)
 			payload[0] = 0xAF
 			payload[1] = base.RtmpAacPacketTypeRaw
